@@ -1284,6 +1284,10 @@ func (u *Unit) modTerm(st *State, a, b Term) Term {
 	r := App(f, SInt, a, b)
 	if st != nil && !strings.Contains(r.S, "!q") {
 		st.assume(Imp(Gt(b, IntLit(0)), And(Le(IntLit(0), r), Lt(r, b), Eq(a, Add(Mul(b, App("div", SInt, a, b)), r)))))
+		// the first two periods spelled out (linear facts; the product above rarely helps the solver):
+		// 0 <= a < b gives a, b <= a < 2b gives a - b - which is all `(x + 1) % n` with 0 <= x < n needs
+		st.assume(Imp(And(Gt(b, IntLit(0)), Le(IntLit(0), a), Lt(a, b)), Eq(r, a)))
+		st.assume(Imp(And(Gt(b, IntLit(0)), Le(b, a), Lt(a, Add(b, b))), Eq(r, Sub(a, b))))
 	}
 	return r
 }
